@@ -194,7 +194,7 @@ class World:
 
     # (the last two leave other writable modes than the store's own: 0o600 is what mkstemp + rename gives, 0o664 a
     # group-writable edit; "not write-protected" is all the statement asks)
-    TAMPER_PATTERNS = ["append", "truncate", "same_len", "other_len", "rename", "rename600", "append664"]
+    TAMPER_PATTERNS = ["append", "truncate", "same_len", "other_len", "rename", "rename600", "append664", "append_cr"]
 
     def tamper(self, s: str, x: str, pat: str = "append"):
         """Make the bytes of object x in store s mismatch its name the way a user could: after
@@ -218,7 +218,9 @@ class World:
         pat = {"rename600": "rename", "append664": "append"}.get(pat, pat)
         if not data and pat in ("truncate", "same_len", "rename"):
             pat = "append"
-        if pat == "append":
+        if pat == "append_cr":      # one bare carriage return at the end (a text file saved by another editor)
+            new, mt = data + b"\r", st.st_mtime_ns + 7_000_000_000
+        elif pat == "append":
             new, mt = data + b"\n#tampered", st.st_mtime_ns + 7_000_000_000
         elif pat == "truncate":
             new, mt = data[:-1], st.st_mtime_ns + 7_000_000_000
